@@ -76,4 +76,16 @@ theorem C07_next_partial (cfg : Cfg) (ms : List Meth) (wf : cfg.H.WF) (anti : cf
   rw [Bool.and_eq_true] at hk
   exact next_partial_core cfg ms wf anti hd hst k (List.all_eq_true.mp hk.2) hne hcc htie cur hcur hcode hsa hca
 
+/-- `C07_next_partial` for the call without arguments (resolved like every other key since the `fix:` for
+    finding D9; `candComparable` is vacuous for the key `[]`) -/
+theorem C07_next_partial_zero_args (cfg : Cfg) (ms : List Meth) (wf : cfg.H.WF) (anti : cfg.H.Antisym)
+    (hd : DistinctHandlers ms) (hst : staticTable ms = true) (htw : tableWF ms = true)
+    (htie : sigTieOK cfg.H ms [] = true)
+    (cur : Meth) (hcur : cur ∈ applicable cfg.H ms []) (hcode : cur.hasCode = true)
+    (hsa : strictAbove cfg.H ms [] cur = true) (hca : codesAbove cfg.H ms [] cur = true) :
+    specAgrees (pureLookup (plan cfg ms) (some cur.code, [])) (nextSpec cfg.H ms cur.code []) := by
+  have _ := htw
+  exact next_partial_core_all cfg ms wf anti hd hst [] (fun _ h => by cases h) (candComparable_nil cfg.H ms) htie
+    cur hcur hcode hsa hca
+
 end Ovld
